@@ -388,4 +388,157 @@ def mayTouch (authority : Addr) (typ : String) (signers : List Addr) (creator : 
   || redirected.any (fun f => roleOf typ f == some .target || roleOf typ f == some .sigProven
       || (!alteration && roleOf typ f == some .freeText))
 
+/-! ## Transferable ownership: token-factory denoms
+
+`x/tokenfactory/keeper/msg_server.go` (`CreateDenom`, `ChangeAdmin`, `Mint`, `Burn`,
+`SetDenomMetadata`), `x/skyway/keeper/msg_server.go` `SetERC20ToTokenDenom`, and the wasm bindings
+`x/tokenfactory/bindings`, `x/skyway/bindings` (which call the same servers with the contract
+address as creator; `PerformSetMetadata` repeats the admin comparison itself).  A denom
+`factory/<addr>/<sub>` is NAMED after its creator for ever, but what the chain keeps for it
+(authority metadata, bank metadata, supply, ERC20 bridge bindings) belongs to its CURRENT admin:
+every handler compares `metadata.creator` with `GetAuthorityMetadata(denom).Admin`, never with the
+address in the name.  `ChangeAdmin` may name anybody, or nobody (the denom is frozen for good). -/
+
+/-- what a message does to a denom -/
+inductive DAct where
+  | create
+  /-- `none`: the admin renounces -/
+  | changeAdmin (newAdmin : Option Addr)
+  /-- any other admin-gated write: Mint / Burn / SetDenomMetadata / SetERC20ToTokenDenom -/
+  | write
+deriving Repr, DecidableEq
+
+structure DMsg where
+  signers : List Addr
+  creator : Addr
+  denom : Nat
+  act : DAct
+
+structure DState where
+  /-- `none`: the denom does not exist (no bank metadata; `validateCreateDenom` refuses a second
+      creation); `some a`: it exists and `DenomAuthorityMetadata.Admin` is `a` (`none` = "") -/
+  den : Nat → Option (Option Addr)
+  /-- abstraction of supply / metadata / bridge binding: number of admin-gated writes so far -/
+  writes : Nat → Nat
+  grants : Addr → Addr → Bool
+
+/-- the decorator's check for a denom message (same rule as `anteOk`) -/
+def dAnteOk (m : DMsg) (g : Addr → Addr → Bool) : Bool :=
+  m.signers.contains m.creator || m.signers.any (fun s => g m.creator s)
+
+def setAt {α : Type} (f : Nat → α) (d : Nat) (v : α) : Nat → α := fun x => if x = d then v else f x
+
+/-- the handlers; `namer d` is the account denom `d` is named after (`GetTokenDenom(creator, sub)`:
+    a creator can only ever create denoms named after itself); `none` = the handler errs -/
+def dHandle (namer : Nat → Addr) (s : DState) (m : DMsg) : Option DState :=
+  match m.act with
+  | .create =>
+    if s.den m.denom = none ∧ namer m.denom = m.creator then
+      some { s with den := setAt s.den m.denom (some (some m.creator)) }
+    else none
+  | .changeAdmin n =>
+    if s.den m.denom = some (some m.creator) then some { s with den := setAt s.den m.denom (some n) } else none
+  | .write =>
+    if s.den m.denom = some (some m.creator) then
+      some { s with writes := setAt s.writes m.denom (s.writes m.denom + 1) }
+    else none
+
+def dAccepted (namer : Nat → Addr) (s : DState) (m : DMsg) : Bool :=
+  dAnteOk m s.grants && (dHandle namer s m).isSome
+
+/-- one delivered transaction carrying a denom message -/
+def dDeliver (namer : Nat → Addr) (s : DState) (m : DMsg) : DState :=
+  if dAnteOk m s.grants = false then s
+  else match dHandle namer s m with
+    | none => s
+    | some s' => s'
+
+/-- everything the chain keeps for denom `d` -/
+def dView (s : DState) (d : Nat) : Option (Option Addr) × Nat := (s.den d, s.writes d)
+
+/-- the principal denom `d`'s state is attributed to: its current admin; before it exists, the
+    account it is named after; `none`: renounced -/
+def dOwner (namer : Nat → Addr) (s : DState) (d : Nat) : Option Addr :=
+  match s.den d with
+  | none => some (namer d)
+  | some a => a
+
+inductive DOp where
+  | grant (granter grantee : Addr)
+  | revoke (granter grantee : Addr)
+  | msg (m : DMsg)
+
+def dStep (namer : Nat → Addr) (s : DState) : DOp → DState
+  | .grant a b => { s with grants := setGrant s.grants a b true }
+  | .revoke a b => { s with grants := setGrant s.grants a b false }
+  | .msg m => dDeliver namer s m
+
+def dRun (namer : Nat → Addr) (s : DState) (ops : List DOp) : DState := ops.foldl (dStep namer) s
+
+def dInit : DState := { den := fun _ => none, writes := fun _ => 0, grants := fun _ _ => false }
+
+/-! ## Batch confirmations
+
+`x/skyway/keeper/msg_server.go` `ConfirmBatch` + `confirmHandlerCommon`, in statement order: the
+batch named by (token contract, nonce) must exist; the validator is looked up from the
+ORCHESTRATOR field (never from the sender); its registered key on the batch's chain must equal the
+`eth_signer` field; the signature must recover to that key over the batch's checkpoint; one
+confirmation per (batch, orchestrator) and per (batch, key); `SetBatchConfirm` files the message
+under the orchestrator.  The sender (`metadata.creator`) is not looked at by the handler at all:
+relaying a validator's signature is legitimate, filing one's own under another validator is not.
+
+Signatures are abstract: a signature is the pair (key that made it, item it was made over) —
+ECDSA recovery soundness is trusted (the harness re-verifies with go-ethereum). -/
+
+structure CAttempt where
+  signers : List Addr
+  creator : Addr
+  batchExists : Bool
+  batch : Nat
+  orch : Addr
+  /-- the key named in `eth_signer` -/
+  ethSigner : Nat
+  /-- the key that made the signature (0: nobody's) -/
+  sigKey : Nat
+  /-- the item the signature was made over -/
+  sigItem : Nat
+
+structure CConfirm where
+  batch : Nat
+  orch : Addr
+  key : Nat
+  sigKey : Nat
+  sigItem : Nat
+deriving Repr, DecidableEq
+
+structure CState where
+  confirms : List CConfirm
+  grants : Addr → Addr → Bool
+
+def cAnteOk (a : CAttempt) (g : Addr → Addr → Bool) : Bool :=
+  a.signers.contains a.creator || a.signers.any (fun s => g a.creator s)
+
+/-- `regKey v` = the key validator `v` registered for the chain (`none`: no validator / no key /
+    unbonded) -/
+def cHandle (regKey : Addr → Option Nat) (s : CState) (a : CAttempt) : Option CState :=
+  if a.batchExists = false then none
+  else if regKey a.orch ≠ some a.ethSigner then none
+  else if a.sigKey ≠ a.ethSigner then none
+  else if a.sigItem ≠ a.batch then none
+  else if s.confirms.any (fun c => c.batch == a.batch && c.orch == a.orch) = true then none
+  else if s.confirms.any (fun c => c.batch == a.batch && c.key == a.ethSigner) = true then none
+  else some { s with confirms := s.confirms ++ [⟨a.batch, a.orch, a.ethSigner, a.sigKey, a.sigItem⟩] }
+
+def cAccepted (regKey : Addr → Option Nat) (s : CState) (a : CAttempt) : Bool :=
+  cAnteOk a s.grants && (cHandle regKey s a).isSome
+
+def cDeliver (regKey : Addr → Option Nat) (s : CState) (a : CAttempt) : CState :=
+  if cAnteOk a s.grants = false then s
+  else match cHandle regKey s a with
+    | none => s
+    | some s' => s'
+
+def cRun (regKey : Addr → Option Nat) (s : CState) (as : List CAttempt) : CState :=
+  as.foldl (cDeliver regKey) s
+
 end Paloma.Auth
